@@ -42,3 +42,28 @@ package utils
 // govc:func (IncomingTransfer).IsFinished property C11
 //@ assigns nothing
 //@ ensures result == t.endFlag
+
+// ---- TransferManager.Send: what a nil result means (C11) ----
+
+// Creating the outgoing transfer serialises the bundle into a pipe in a goroutine of its own (outside reach).
+// govc:trusted NewBundleOutgoingTransfer
+//@ assigns nothing
+//@ ensures result != nil
+
+// Send returns nil only from one of its two comparisons: the number of bytes the segmenter reported as handed out
+// (received on lenChan, i.e. after io.EOF, i.e. after the END segment) equals the acknowledged length of the most
+// recent XFER_ACK. A refusal, any other message, a segmenter error, a stop or the timeout yield an error.
+// (The sending goroutine is not executed on this path; what arrives on the channels is arbitrary.)
+// govc:func (*TransferManager).Send property C11
+//@ requires tm.outFeedback != nil
+//@ chaninv errChan: v != nil
+//@ chaninv ackChan: v != nil
+//@ atreturn result == nil ==> outLen == inLen
+//@ loop 0 invariant true
+
+// The sending goroutine of Send: it reports only genuine errors on errChan, and the total on lenChan only after the
+// segmenter returned io.EOF.
+// govc:func (*TransferManager).Send$1 property C11
+//@ requires transfer != nil && tm != nil && errChan != nil && lenChan != nil && tm.msgOut != nil && !closed(errChan) && !closed(lenChan) && !closed(tm.msgOut)
+//@ chaninv errChan: v != nil
+//@ loop 0 invariant true
